@@ -203,8 +203,8 @@ def _run(case):
                 fp = v["file_path"]
                 if os.path.isabs(fp):
                     rel = runner.norm_path(fp, p.root, cwd)
-                elif mode == "subdir":
-                    rel = os.path.normpath(os.path.join(inv["sub"], fp))
+                elif mode == "subdir" and not os.path.exists(os.path.join(p.root, fp)) and os.path.exists(os.path.join(cwd, fp)):
+                    rel = os.path.normpath(os.path.join(inv["sub"], fp))  # argument-relative spelling
                 else:
                     rel = os.path.normpath(fp)
                 reported.setdefault(rel, []).append({"rule_id": v["rule_id"], "message": v["message"].replace(p.root, "<root>")})
